@@ -25,18 +25,59 @@ def _variant_projections(f, enum_suffix):
     return out
 
 
+def _origin(f):
+    return getattr(f, 'origin', f)
+
+
+def _group_aggs(prog, f, pat):
+    """aggregates built in f or in a closure nested in f"""
+    out = list(_aggs(f, pat))
+    for g in prog.closures_of(_origin(f)):
+        out += _aggs(g, pat)
+    return out
+
+
+def _select(prog, pred, prefer='inner', exclude=(), within=None):
+    """the function with a given shape. On the program as written the shape normally sits in exactly one function. When a function has
+    been split into helpers the shape is found on the views with helpers inlined; several nested candidates then qualify (the
+    function, and every caller that inlines it): `inner` picks the one that contains no other candidate, `root` the one that no
+    other candidate contains."""
+    fns = [f for f in prog.product_fns() if f.crate == 'acb' and f.kind in ('Fn', 'AssocFn') and f.name not in exclude]
+    if within is not None:
+        fns = [f for f in fns if f.name in within]
+    plain = [f for f in fns if pred(_origin(f))]
+    on_views = getattr(prog, 'is_inlined_view', False)
+    if len(plain) == 1 and not (on_views and prefer == 'root'):
+        return plain[0]
+    cands = plain if (len(plain) > 1 and not on_views) else [f for f in fns if pred(f)]
+    if len(cands) <= 1:
+        return cands[0] if cands else None
+    names = {f.name for f in cands}
+    contains = {}
+    for f in cands:
+        contains[f.name] = {g.name for g in prog.callees_closure([_origin(f)]).values() if g.name in names and g.name != f.name}
+    if prefer == 'inner':
+        pick = [f for f in cands if not contains[f.name]]
+    else:
+        inside = set().union(*contains.values())
+        pick = [f for f in cands if f.name not in inside]
+    return pick[0] if len(pick) == 1 else None
+
+
 def ledger_step(prog):
     """the per-transaction ledger function: builds a TxDelta and matches on all five action variants"""
-    c = _product(prog, lambda f: f.kind in ('Fn', 'AssocFn') and _aggs(f, r'^adt:portfolio::model::txdelta::TxDelta::') and
-                 len(_variant_projections(f, 'TxActionSpecifics') & {'Buy', 'Sell', 'Roc', 'Sfla', 'Split'}) == 5)
-    return c[0] if len(c) == 1 else None
+    return _select(prog, lambda f: bool(_aggs(f, r'^adt:portfolio::model::txdelta::TxDelta::')) and
+                   len(_variant_projections(f, 'TxActionSpecifics') & {'Buy', 'Sell', 'Roc', 'Sfla', 'Split'}) == 5, prefer='inner')
 
 
 def sfl_validation(prog):
     """the function of the bookkeeping that builds the automatic SfLA transactions (and validates a specified loss)"""
-    c = _product(prog, lambda f: f.kind in ('Fn', 'AssocFn') and f.name.startswith('portfolio::bookkeeping::') and
-                 _aggs(f, r'TxActionSpecifics::Sfla$'))
-    return c[0] if len(c) == 1 else None
+    ls = ledger_step(prog)
+    within = None
+    if ls is not None:
+        within = {g.name for g in prog.callees_closure([_origin(ls)]).values()} - {ls.name}
+    return _select(prog, lambda f: f.name.startswith('portfolio::bookkeeping::') and bool(_group_aggs(prog, f, r'TxActionSpecifics::Sfla$')),
+                   prefer='root', within=within)
 
 
 def window_scan(prog, first_name, last_name):
